@@ -368,9 +368,14 @@ def run(ctx: Ctx) -> Result:
     if ctx.replay is None or 'names' in ctx.replay.get('replay', {}):
         from harness import gen_cluster as gc
         from harness.props.c04 import run_scenarios
-        scs = [ctx.replay['replay']] if ctx.replay is not None else gc.racing_engine_family()
+        import itertools
+        # (… and "every notification handed to a subscriber is a frozen snapshot" while the replication layer queues, retries
+        # and merges what the notifications carried: sends that fail again and again, outages, backlogs)
+        scs = [ctx.replay['replay']] if ctx.replay is not None else itertools.chain(
+            gc.racing_engine_family(), gc.repeated_failure_family(), gc.merged_backlog_family(),
+            (gc.fault_scenario(ctx.rng) for _ in range(400 if ctx.thorough else 60)))
         if not (ctx.replay is not None and ctx.replay['replay'].get('race')):
-            run_scenarios(ctx, scs, res, {'completed-twice', 'finished-run-resurrected', 'action-executed-twice'})
+            run_scenarios(ctx, scs, res, {'completed-twice', 'finished-run-resurrected', 'action-executed-twice', 'published-snapshot-changed'})
     from harness import decider_race
     decider_race.attach(ctx, res)
     return res
@@ -388,7 +393,8 @@ SPEC = PropSpec(
     rule='adaptive histories of 8-40 operations on one real decider mixing local events with remote updates derived from its '
          'current table (ahead / equal / behind / finished / stale / merged / duplicated / unknown pattern / foreign id), over random '
          'and loop/optional/singleton pattern sets with finished-run memory 0/8/1000 (memory-dependent clauses checked with 1000), plus sampled exhaustive C01 local streams; '
-         'non-trivial = some run changed; every published record and complex event is re-serialised at the end of the history',
+         'non-trivial = some run changed; every published record and complex event is re-serialised at the end of the history; '
+         'on clusters (racing, repeated-failure, merged-backlog and random fault families) the decider subscriber keeps the notification LIST OBJECTS and compares them after every step',
     trusted_base=['the frozen-snapshot clause is monitored on the real objects (aliasing is outside the pure model)'],
     assumptions=['user predicates are pure'],
     model_covers='BoboRun.process (monotone index, append-only history, absorbing halt), BoboDecider.on_distributed_update '
